@@ -45,6 +45,7 @@ CONFIGS = [
     {"name": "tls-2addr-nodelay", "cfg": {"tls": True, "no_delay": True, "connect_timeout": 3, "timeout": 0.5},
      "resolves": [["inet6", "::1"], ["inet", "10.0.0.1"]]},
     {"name": "keepalive", "cfg": {"keepalive": [2, 3, 4], "connect_timeout": 0.5}},
+    {"name": "tcp-pool-idle", "cfg": {"timeout": 3}, "pool_idle_timeout": 3},
     {"name": "unix", "cfg": {"timeout": 3}, "unix": "/tmp/memcached.sock"},
     {"name": "unix-timeouts", "cfg": {"connect_timeout": 3, "timeout": 0.5}, "unix": "/var/run/mc.sock"},
 ]
@@ -139,6 +140,8 @@ def _base(conf, kind):
     d = {"kind": kind, "cfg": dict(conf["cfg"], ignore_exc=False), "name": conf["name"], "calls": [dict(c) for c in BASE_CALLS + FINAL]}
     if kind == "pooled":
         d["cfg"]["max_pool_size"] = 1
+        if conf.get("pool_idle_timeout"):
+            d["cfg"]["pool_idle_timeout"] = conf["pool_idle_timeout"]      # FINAL advances the clock by 5 s: the connection idles out
     for k in ("resolves", "unix"):
         if k in conf:
             d[k] = conf[k]
